@@ -364,7 +364,8 @@ def check(case, ctx):
         S = specs.build(case["spec"])
         S1 = specs.build(case["rebuild"])
     except DeclarationError as e:
-        raise HarnessError(f"undeclarable spec in C15: {e}")
+        ctx.skip_undeclarable(None, e)
+        return
     S2 = None
     if case["variant"] is not None:
         try:
